@@ -4,7 +4,7 @@ SPEC = {
     "go": [dict(PROXY, files=["api_ipfsproxy/c12_rig_test.go", "api_ipfsproxy/c12_test.go"], test="TestVerifC12",
                 n_quick=1500, n_thorough=48000, shards_quick=4, shards_thorough=16)],
     "gen": ["ProxyRoutes"],
-    "force": ["Model/C12_Proxy.v", "Model/C12_Check.v", "Proofs/C12_Proxy.v"],
+    "force": ["Model/C12_Proxy.v", "Model/C12_Check.v", "Model/C12_Tables.v", "Proofs/C12_Proxy.v"],
     "diag": True,
     "rule": "generated requests: hijacked routes in both argument styles x valid/invalid paths and CIDs x every option "
             "(type, unpin, only-hash, pin, trickle, layout, chunker, stream-channels, name, replication, ...) x all methods "
@@ -16,7 +16,7 @@ SPEC = {
     "trusted": ["harness/api_ipfsproxy/c12_rig_test.go: recording fake daemon (httptest) and recording Cluster/IPFSConnector/Consensus RPC services",
                 "net/http, httputil.ReverseProxy, gorilla/mux cleanPath, net/url, go-path, go-cid parsers: outcomes are inputs of the model",
                 "tools/gen/proxyroutes.go (syntactic translator of the hijack subrouter)"],
-    "level_text": "24 theorems (Props/C12.v, all closed) over the Gallina transcription of the proxy (routing through the generated table "
+    "level_text": "25 theorems (Props/C12.v, all closed) over the Gallina transcription of the proxy (routing through the generated table "
                   "Gen/ProxyRoutes.v, the seven hijack handlers, the relay) for every request, parser outcome and RPC failure script; the "
                   "transcription is compared with the real ipfsproxy.Server between a recording daemon and recording RPC services on generated "
                   "requests at every run, and the implementation's own observations are checked against the boolean form of the property. "
